@@ -76,7 +76,7 @@ def drn1_abcf(ctx, prog, cfg, rule="DRN1"):
     ctx.floor(rule, "Drain methods checked for (c)", n, 6, cfg)
     # (f) Drain::read only from the next/next_back closures
     callers = eff.callers("Drain::read")
-    allowed = {NEXT + "::{closure#0}", NEXT_BACK + "::{closure#0}"}
+    allowed = {NEXT, NEXT_BACK, NEXT + "::{closure#0}", NEXT_BACK + "::{closure#0}"}
     ctx.check(bool(callers) and {c for c, _, _ in callers} <= allowed, rule, "Drain::read", "f: callers", "?",
               "Drain::read (the only move-out of a drained element) is called from %s; only next/next_back, which hold "
               "`&mut Drain` and advance the index iterator first, may call it" % sorted({c for c, _, _ in callers}),
@@ -108,28 +108,29 @@ def drainit1(ctx, prog, cfg, rule="DRAINIT1"):
         ctx.check(ok and arg_ok, rule, short, "advances self.iter", f.loc,
                   "`%s` does not obtain the index from exactly one `%s(&mut self.iter)`" % (short, rng_fn),
                   "index = %s(&mut self.iter)" % rng_fn, cfg)
-        mc = [(b, t) for b, t in f.calls(False) if mir.callee_path(t) == "core::option::Option::map"]
-        ok2 = len(mc) == 1
-        if ok2:
-            a = f.call_args(mc[0][0])
-            ok2 = isinstance(a[0], tuple) and a[0][0] == "call" and a[0][1] == rng_fn
-            rets = f.return_blocks()
-            ok2 = ok2 and len(rets) == 1 and mir.strip_casts(f.return_expr(rets[0])) == ("call", "Option::map", tuple(a), mc[0][0])
-        ctx.check(ok2, rule, short, "returns iter.next().map(read)", f.loc,
-                  "the return value is not `self.iter.%s().map(|i| read(i))`" % rng_fn.split("::")[-1],
-                  "return = Option::map(<index>, closure)", cfg)
+        # the element handed out is read(self, i) for exactly the index i just produced: either
+        # `.map(|i| read(i))` (closure argument) or `let i = ...?; Some(read(i))` (payload of the call)
+        sites = [(f, b) for b, t in f.calls_to("Drain::read", unwind=False)]
         c = prog.fn(short + "::{closure#0}")
-        if c is None:
-            ctx.violate(rule, short, "closure missing", f.loc, "the mapping closure was not found", cfg)
-            continue
-        rd = c.calls_to("Drain::read", unwind=False)
-        ok3 = len(rd) == 1
+        if c is not None:
+            sites += [(c, b) for b, t in c.calls_to("Drain::read", unwind=False)]
+        ok3 = len(sites) == 1
+        why3 = "%d calls of Drain::read" % len(sites)
         if ok3:
-            a = c.call_args(rd[0][0])
-            # the index handed to read is the closure's own argument, unmodified
-            ok3 = mir.strip_casts(a[1]) == ("param", 2)
-        ctx.check(ok3, rule, c.short, "read(index) with the produced index", c.loc,
-                  "Drain::read is not called with exactly the index produced by the range iterator", "read(self, <closure arg>)", cfg)
+            g, rb = sites[0]
+            ia = mir.strip_casts(g.deep_simplify(g.call_args(rb)[1]))
+            if g is c:
+                mc = [(b, t) for b, t in f.calls(False) if mir.callee_path(t) == "core::option::Option::map"]
+                ok3 = ia == ("param", 2) and len(mc) == 1 and isinstance(f.call_args(mc[0][0])[0], tuple) and f.call_args(mc[0][0])[0][:2] == ("call", rng_fn)
+                why3 = "iter.%s().map(|i| read(i))" % rng_fn.split("::")[-1]
+            else:
+                from_call = any(isinstance(s, tuple) and s and s[0] == "call" and s[1] == rng_fn for s in mir.walk(ia))
+                arith = any(isinstance(s, tuple) and s and s[0] in ("binop", "pcall") for s in mir.walk(ia))
+                ok3 = from_call and not arith
+                why3 = "read(index) with index = payload of iter.%s()" % rng_fn.split("::")[-1]
+        ctx.check(ok3, rule, short, "reads exactly the produced index", f.loc,
+                  "the element handed out by `%s` is not `read(i)` for exactly the index `i` just produced by the range iterator (%s)" % (short, why3),
+                  why3, cfg)
     # len / size_hint are the index iterator's
     for short, callee in (("<Drain<N, T> as Iterator>::size_hint", "<Range<A> as Iterator>::size_hint"),
                           ("<Drain<N, T> as ExactSizeIterator>::len", "ExactSizeIterator::len")):
